@@ -28,6 +28,7 @@ import (
 	"sync/atomic"
 	"time"
 
+	"github.com/hhkbp2/go-logging"
 	"github.com/snower/slock/protocol"
 )
 
@@ -41,13 +42,43 @@ type n09Node struct {
 	closed int32
 }
 
+// n09NewInst is vNewInst with one difference: the logger is configured once per process. vQuietLogger calls
+// SetLevel on the shared logger for every instance; go-logging takes its RWMutex recursively for reading when a
+// node logs, so a SetLevel arriving while another node of the cluster is logging deadlocks the process
+// (observed: a shard hanging until the 25 min test timeout, and most of the 5 s "teardown abandoned" cases).
+var n09LoggerOnce sync.Once
+var n09TheLogger logging.Logger
+
+func n09NewInst(o vInstOpts) (*vInst, error) {
+	vInstMu.Lock()
+	defer vInstMu.Unlock()
+	n09LoggerOnce.Do(func() {
+		n09TheLogger = logging.GetLogger("verif-n09")
+		_ = n09TheLogger.SetLevel(logging.LevelCritical)
+	})
+	if o.DataDir == "" {
+		o.DataDir = vScratchDir("inst")
+	}
+	if o.NoCheckLoop {
+		atomic.StoreInt32(&vNoCheckLoop, 1)
+	} else {
+		atomic.StoreInt32(&vNoCheckLoop, 0)
+	}
+	slock := NewSLock(vConfig(o), n09TheLogger)
+	server := NewServer(slock)
+	if err := slock.Init(server); err != nil {
+		return nil, err
+	}
+	return &vInst{slock, server, o.DataDir, o}, nil
+}
+
 func n09StartNode(o vInstOpts, startSync bool) (*n09Node, error) {
 	ln, err := net.Listen("tcp", "127.0.0.1:0")
 	if err != nil {
 		return nil, err
 	}
 	o.Port = uint(ln.Addr().(*net.TCPAddr).Port)
-	inst, err := vNewInst(o)
+	inst, err := n09NewInst(o)
 	if err != nil {
 		_ = ln.Close()
 		return nil, err
@@ -142,6 +173,9 @@ type n09Proxy struct {
 	skipAhead                    int  // ... and the next SYNC was accepted as a resume
 	windowOpen                   int  // replication connections currently inside the vulnerable window
 	sentTwice                    string
+	rewritedInTransfer           int
+	maxLive                      *n09Id // highest live record id forwarded to this follower since its last full transfer
+	redelivered                  int    // live records forwarded although an earlier connection had already carried them
 	holdSync                     bool // new replication handshakes wait (no transfer may start during a rotation)
 	inTransfer                   int  // replication connections between SYNC request and end of file transfer
 }
@@ -342,7 +376,7 @@ func (p *n09Proxy) serve(c net.Conn) {
 	_ = c.Close()
 	p.mu.Lock()
 	endTransfer()
-	if lp.inWindow() {
+	if lp.inWindow() && id == p.nconn { // only the follower's current connection says anything about its next SYNC
 		p.pendingSkip = true
 		p.windowOpen--
 		p.event(id, lp.phase, "full transfer ended before the follower received a single record")
@@ -539,6 +573,7 @@ func (l *n09L2FParser) feed(b []byte) {
 					}
 					p.pendingSkip = false
 					p.fullSyncs++
+					p.maxLive = nil
 					p.startPending = true
 					p.startId = nil
 					p.lastLive = nil
@@ -583,6 +618,9 @@ func (l *n09L2FParser) feed(b []byte) {
 		}
 		if l.phase != n09PhaseLive {
 			p.filesRecords++
+			if aofFlag&AOF_FLAG_REWRITED != 0 {
+				p.rewritedInTransfer++
+			}
 			fid := n09Id{idx, off}
 			if l.maxFile == nil || l.maxFile.less(fid) {
 				l.maxFile = &fid
@@ -601,6 +639,15 @@ func (l *n09L2FParser) feed(b []byte) {
 			p.event(l.rc.id, l.phase, "first live record %v", id)
 		} else if p.startId == nil {
 			p.startId = &id // a stale directory resumed without a full transfer in this run
+		}
+		if p.maxLive != nil && !p.maxLive.less(id) {
+			if p.redelivered == 0 {
+				p.event(l.rc.id, l.phase, "!! live record %v forwarded again (an earlier connection carried the stream up to %v)", id, *p.maxLive)
+			}
+			p.redelivered++
+		} else {
+			v := id
+			p.maxLive = &v
 		}
 		if l.lastLive != nil {
 			prev := *l.lastLive
@@ -676,6 +723,7 @@ type n09Case struct {
 	Ring      int       `json:"ring"`
 	RingMax   int       `json:"ringmax"`
 	Followers int       `json:"followers"`
+	Tries     int       `json:"tries,omitempty"`  // replay only: executions to try (races with a narrow window)
 	NoLoop    bool      `json:"noloop,omitempty"` // hook H1: no wall-clock sweep goroutines, the harness owns the DB clocks
 	Ops       []n09Op   `json:"ops"`
 	Cuts      [][]int64 `json:"cuts"` // per follower: cumulative leader->follower byte offsets of replication traffic
@@ -718,12 +766,15 @@ type n09Info struct {
 	skipAhead, deferredCuts            int
 	knownDupFlush                      int
 	knownCompactedLog                  int
+	knownLeftOver                      int
 	excludedEmptyRotation              int
 	excludedEmptyRingJoin              int
 	excludedRotationOverlap            int
 }
 
 type n09Out struct {
+	leaderSnap   map[string]*n09KeyState // filled when the state oracle failed
+	followerSnap map[string]*n09KeyState
 	discarded    string
 	err          error
 	key          string
@@ -738,9 +789,12 @@ type n09Slot struct {
 	joined int
 	stall  bool
 	tainted bool // its directory showed the double-flush signature
+	fullSyncsAtJoin int
+	compactedInput string // why this follower's state rests on a compacted log ("" = it does not)
 }
 
 type n09Env struct {
+	lastLeaderSnap, lastFollowerSnap map[string]*n09KeyState
 	c        *n09Case
 	leader   *n09Node
 	client   *MemWaiterServerProtocol
@@ -871,11 +925,26 @@ func (e *n09Env) close() {
 }
 
 // n09Known: exclusions / suppressions for listed findings are active in the property, never in a replay.
+// In a replay the exclusion / suppression of the replayed file's own key is off (the finding has to show);
+// the other listed keys stay excluded so that the case exhibits that finding and not a neighbour.
+// n09ReplayMode without a key (C10 replays) switches all of them off.
 var n09ReplayMode bool
+var n09ReplayKey string
 
-func n09Known(key string) bool { return !n09ReplayMode && vIsKnown(key) }
+func n09Known(key string) bool {
+	if n09ReplayMode && (n09ReplayKey == "" || n09SameFinding(n09ReplayKey, key)) {
+		return false
+	}
+	return vIsKnown(key)
+}
+
+// n09SameFinding: the hold lost to the compaction is reported under the general compacted-log signature.
+func n09SameFinding(fileKey, observed string) bool {
+	return fileKey == observed || (fileKey == n09KeyCompaction && observed == n09KeyCompactedLog)
+}
 
 const n09KeyCompactedLog = "C09:leader-compacted-log-does-not-reproduce-leader-state"
+const n09KeyLeftOver = "C09:reconnect-overtakes-the-old-connection-pipelines"
 const n09KeyTransferVsCompaction = "C09:file-transfer-concurrent-with-compaction-misses-history"
 const n09KeyFirstTwice = "C09:first-record-delivered-twice-when-sync-races-with-empty-ring"
 const n09KeyWedged = "C09:follower-wedged-by-append-file-index-hole"
@@ -1030,10 +1099,20 @@ func (e *n09Env) join(op n09Op) error {
 		}
 		s.proxy.mu.Lock()
 		s.proxy.startId, s.proxy.startPending, s.proxy.lastLive = nil, false, nil
+		s.proxy.rewritedInTransfer = 0
+		s.proxy.maxLive = nil
 		s.proxy.mu.Unlock()
+		s.compactedInput = ""
 	} else if s.joined > 0 {
 		e.info.staleJoins++
+		if _, serr := os.Stat(filepath.Join(s.dir, "rewrite.aof")); serr == nil {
+			s.compactedInput = "restarted from its own directory, which holds a rewrite.aof"
+		}
 	}
+	s.proxy.mu.Lock()
+	s.fullSyncsAtJoin = s.proxy.fullSyncs
+	s.proxy.pendingSkip = false // a new incarnation takes its position from its files
+	s.proxy.mu.Unlock()
 	if n09Known(n09KeyFirstTwice) {
 		n09Drain(e.leader.inst.slock.aof) // nothing of the workload so far is still on its way into the ring
 	}
@@ -1357,7 +1436,7 @@ func (e *n09Env) referenceState() (map[string]*n09KeyState, error) {
 	}
 	o := n09InstOpts(e.c)
 	o.DataDir = dir
-	inst, err := vNewInst(o)
+	inst, err := n09NewInst(o)
 	if err != nil {
 		_ = os.RemoveAll(dir)
 		return nil, err
@@ -1624,6 +1703,13 @@ func (e *n09Env) checkFiles(f int, target n09Id) (key, msg string) {
 		// strict comparison failed: is it exactly the double-flush signature?
 		if m2, dups := e.checkOneFile(f, aof.dataDir, name, exact, start, target, true); m2 == "" && dups > 0 {
 			s.tainted = true
+			s.proxy.mu.Lock()
+			redelivered := s.proxy.redelivered
+			s.proxy.mu.Unlock()
+			if redelivered > 0 {
+				// the repetitions came over the wire: a resume from a stale position (unjoined pipelines), not a double flush
+				return n09KeyLeftOver, fmt.Sprintf("%s\n    (%d live records were forwarded to this follower a second time; apart from %d byte-identical repetitions the file matches the leader's log)", m, redelivered, dups)
+			}
 			return n09KeyDupFlush, fmt.Sprintf("%s\n    (apart from %d byte-identical repetitions of earlier records/payloads the file matches the leader's log)", m, dups)
 		}
 		return "C09:follower-log-differs", m
@@ -1667,7 +1753,13 @@ func (e *n09Env) syncAndCheck(final bool) (key, violation, inconclusive string) 
 	for _, i := range active {
 		s := e.slots[i]
 		fol := n09Canon(s.node.inst.slock, false)
+		s.proxy.mu.Lock()
+		if s.proxy.rewritedInTransfer > 0 && s.compactedInput == "" {
+			s.compactedInput = fmt.Sprintf("%d records of the leader's rewrite.aof in its file transfers", s.proxy.rewritedInTransfer)
+		}
+		s.proxy.mu.Unlock()
 		if d := n09CompareState(lead, fol); d != "" {
+			e.lastLeaderSnap, e.lastFollowerSnap = lead, fol
 			key := "C09:follower-state-diverges"
 			if s.tainted && n09Known(n09KeyDupFlush) {
 				key = n09KeyDupFlush // the follower reloaded a directory that the double flush had corrupted
@@ -1693,8 +1785,53 @@ func (e *n09Env) syncAndCheck(final bool) (key, violation, inconclusive string) 
 							e.info.knownCompactedLog++
 							continue
 						}
+					} else if ld := n09CompareState(lead, ref); ld != "" {
+						// the leader's own files do not recover the leader's state either: the log this follower was
+						// fed from is not a description of the leader (compaction finding), so nothing built from it
+						// can be held against the leader's state
+						key = n09KeyCompactedLog
+						note = "    a restart of the leader from its own files does not recover the leader's state (" + ld + "): the (compacted) log itself is wrong\n" + n09DescribeState(ref)
+						if n09Known(key) {
+							e.info.knownCompactedLog++
+							continue
+						}
+					} else if why := s.compactedInput; why != "" {
+						// built from a compacted log (the leader's rewrite.aof in a transfer, or its own after a restart):
+						// the compaction drops records whose effects (values, update terms) are still visible
+						key = n09KeyCompactedLog
+						note = "    this follower was built from a compacted log (" + why + ")\n"
+						if n09Known(key) {
+							e.info.knownCompactedLog++
+							continue
+						}
 					} else {
-						note = "    a restart of the leader from its own files recovers yet another state:\n" + n09DescribeState(ref)
+						note = "    a restart of the leader from its own files recovers the leader's state; the follower differs from both\n"
+						s.proxy.mu.Lock()
+						fulls := s.proxy.fullSyncs - s.fullSyncsAtJoin
+						s.proxy.mu.Unlock()
+						dupMsg := ""
+						if k2, m2 := e.checkFiles(i, tid); k2 == n09KeyDupFlush || k2 == n09KeyLeftOver {
+							dupMsg = m2
+						}
+						if dupMsg != "" {
+							// second signature of the same finding: the records of a connection were delivered again after a
+							// resume from a stale position - the follower's log holds them twice and they were applied twice
+							key = n09KeyLeftOver
+							note += "    its log holds byte-identical repetitions: " + strings.SplitN(dupMsg, "\n", 2)[0] + "\n"
+							if n09Known(key) {
+								e.info.knownLeftOver++
+								continue
+							}
+						} else if fulls >= 2 {
+							// signature of an open finding: this incarnation was resynchronised from scratch at least twice
+							// (Aof.Reset + FlushDB + transfer) and ends with holds / depths the leader does not have
+							key = n09KeyLeftOver
+							note += fmt.Sprintf("    this follower went through %d full transfers without a restart\n", fulls)
+							if n09Known(key) {
+								e.info.knownLeftOver++
+								continue
+							}
+						}
 					}
 				}
 			}
@@ -1715,6 +1852,10 @@ func (e *n09Env) syncAndCheck(final bool) (key, violation, inconclusive string) 
 		if key, msg := e.checkFiles(i, tid); msg != "" {
 			if key == n09KeyDupFlush && n09Known(key) {
 				e.info.knownDupFlush++
+				continue
+			}
+			if key == n09KeyLeftOver && n09Known(key) {
+				e.info.knownLeftOver++
 				continue
 			}
 			return key, msg + "\n" + e.dumpFiles(i), ""
@@ -1749,6 +1890,7 @@ func n09RunCluster(c *n09Case) (out n09Out) {
 		}
 		out.key = key
 		out.err = fmt.Errorf("%s\n%s", msg, e.report())
+		out.leaderSnap, out.followerSnap = e.lastLeaderSnap, e.lastFollowerSnap
 	}
 	for i, op := range c.Ops {
 		e.logf("#%d %v", i, op)
